@@ -426,9 +426,19 @@ pub fn regs(rng: &mut Rng) -> [u32; 8] {
 
 /// bus-controller settings as a rarely varied configuration dimension of the value-level checks
 pub fn maybe_bus(rng: &mut Rng, c: &mut Case) {
-    if rng.chance(1, 4) {
-        let b = crate::refmodel::cost::BusRegs { abwcr: rng.u8(), astcr: rng.u8(), wcrh: rng.u8(), wcrl: rng.u8(), drcra: rng.u8() };
-        c.bus(&b);
+    match rng.below(8) {
+        0 | 1 => {
+            let b = crate::refmodel::cost::BusRegs { abwcr: rng.u8(), astcr: rng.u8(), wcrh: rng.u8(), wcrl: rng.u8(), drcra: rng.u8() };
+            c.bus(&b);
+        }
+        2 => {
+            // one register alone on top of the current background (the way a guest changes settings):
+            // whatever the emulator derives from the settings must follow each register on its own
+            use crate::refmodel::cost::{ABWCR, ASTCR, DRCRA, WCRH, WCRL};
+            let reg = *rng.pick(&[ABWCR, ASTCR, WCRH, WCRL, DRCRA, DRCRA]);
+            c.patches.push((reg, rng.u8()));
+        }
+        _ => {}
     }
 }
 
